@@ -47,6 +47,15 @@ def run_vec_check(prop, tier, replay=None):
                                {"states": max(1, mc["distinct"]), "transitions": max(1, mc["states"]), "traces_validated_against_impl": 0,
                                 "samples": [vec], "aborted": True}, time.time() - t0, 1, ["process abort of the code under test is a violation"])
                 return 1
+            if "on an `Err` value" in r.stderr or "on a `None` value" in r.stderr:
+                # a library call that never fails on the unchanged tree returned an error and the harness gave up: that is data
+                rp = save_replay(prop, {"vector": {"what": w}, "tags": [prop + ":library-call-failed"], "stderr": r.stderr[-1500:]})
+                print(f"VIOLATION property={prop} replay={rp}")
+                log(f"[{prop}]   a library call failed inside the vector harness ({w}): {r.stderr[-400:]}")
+                write_evidence(prop, tier, "model_checking",
+                               {"states": max(1, mc["distinct"]), "transitions": max(1, mc["states"]), "traces_validated_against_impl": 0,
+                                "samples": [{"what": w}], "aborted": True}, time.time() - t0, 1, ["a failing library call in the vector harness is a violation"])
+                return 1
             raise ToolError(f"harness vec {w} failed: {r.stderr[-2000:]}")
         traces.append(outp)
     t2 = time.time()
